@@ -1,12 +1,12 @@
 SPECIFICATION Spec
 CONSTANTS
-  Family = "failing"
+  Family = "partialstart"
   MaxEm = 3
-  EvPerEm = 1
+  EvPerEm = 2
   FixD3 = TRUE
   FixD10 = TRUE
   FixD12 = TRUE
   FixD17 = TRUE
   FixD18 = TRUE
-  FixD20 = TRUE
-INVARIANT TypeOK
+  FixD20 = FALSE
+INVARIANT C13_StartRetrySucceeds
